@@ -53,3 +53,15 @@ Example C04_nonvacuous :
   nodes (Ebr.run [0; 1] Ebr.init tr1) 5 = Flushed 1 /\ nodes (Ebr.run [0; 1] Ebr.init tr2) 5 = Freed /\
   bad_access (Ebr.run [0; 1] Ebr.init tr2) = false.
 Proof. vm_compute. repeat split. Qed.
+
+(** KNOWN FINDING D17 (recorded, not repaired): the obligation "flushes of nodes already unlinked at
+    every level" — and staying so — that C04_ebr_safe places on the skiplist is FALSE for the skiplist
+    step machine and for the code: after a Delete has returned true (its caller hands the node to the
+    barrier), the Insert that is still linking that node's upper levels links it at level 1, where a
+    goroutine entering the barrier afterwards finds it; the Insert unlinks it again before leaving
+    (C14_levels_clean), but the barrier waits only for the goroutines that were inside at the hand-over.
+    Replayed on Nitro with the guard allocator: corpus/C04/d17-late-link-uaf.json (a fault in findPath). *)
+From NV Require Import Skip.Model Skip.Stmts Skip.LateLink.
+Theorem C04_retired_stays_unlinked_refuted : ~ stmt_retired_stays_unlinked.
+Proof. exact retired_stays_unlinked_refuted. Qed.
+Print Assumptions C04_retired_stays_unlinked_refuted.
